@@ -1224,27 +1224,28 @@ Definition st_ok (cap : option Z) (st : Z * Z * list (Z * Z)) : Prop :=
   | Some n => fst (fst st) = zlen (snd st) /\ fst (fst st) <= n
   end.
 
-Lemma hl_table_bounded : forall blk refs nx blen total cap st st',
-  st_ok cap st -> hl_table blk refs nx blen total cap st = Some st' -> st_ok cap st'.
+Lemma hl_table_bounded : forall blk refs blen total cap isf st st' isf',
+  st_ok cap st -> hl_table blk refs blen total cap isf st = Some (st', isf') -> st_ok cap st'.
 Proof.
-  induction refs as [|r t IH]; intros nx blen total cap [[num accum] out] st' Hst H; cbn [hl_table] in H.
+  induction refs as [|r t IH]; intros blen total cap isf [[num accum] out] st' isf' Hst H; cbn [hl_table] in H.
   - inversion H; subst; assumption.
-  - destruct ((r =? 0) || hl_full cap num) eqn:E; [inversion H; subst; assumption|].
-    apply orb_false_iff in E. destruct E as [_ E]. destruct cap as [n|].
-    + destruct (blk r) as [[o len]|]; [|discriminate]. eapply IH; [|exact H].
-      unfold st_ok in *. cbn [fst snd] in *. unfold hl_full in E. apply Z.leb_gt in E.
-      rewrite zlen_app. unfold zlen at 2. cbn [List.length]. lia.
-    + eapply IH; [|exact H]. unfold st_ok in *. cbn [fst snd] in *. destruct Hst. split; [assumption|lia].
+  - destruct (negb (accum <? total) || hl_full cap num) eqn:E; [inversion H; subst; assumption|].
+    apply orb_false_iff in E. destruct E as [_ E].
+    destruct (r =? 0); [eapply IH; [|exact H]; destruct cap; unfold st_ok in *; cbn [fst snd] in *; exact Hst|].
+    destruct (blk r) as [[o len]|]; [|discriminate]. eapply IH; [|exact H].
+    destruct cap as [n|]; unfold st_ok in *; cbn [fst snd] in *.
+    + unfold hl_full in E. apply Z.leb_gt in E. rewrite zlen_app. unfold zlen at 2. cbn [List.length]. lia.
+    + destruct Hst. split; [assumption|lia].
 Qed.
 
-Lemma hl_tables_bounded : forall blk tables blen total cap st st',
-  st_ok cap st -> hl_tables blk tables blen total cap st = Some st' -> st_ok cap st'.
+Lemma hl_tables_bounded : forall blk tables blen total cap isf st st',
+  st_ok cap st -> hl_tables blk tables blen total cap isf st = Some st' -> st_ok cap st'.
 Proof.
-  induction tables as [|[nx refs] more IH]; intros blen total cap [[num accum] out] st' Hst H; cbn [hl_tables] in H.
+  induction tables as [|[nx refs] more IH]; intros blen total cap isf [[num accum] out] st' Hst H; cbn [hl_tables] in H.
   - inversion H; subst; assumption.
   - destruct (hl_full cap num); [inversion H; subst; assumption|].
-    destruct (hl_table blk refs nx blen total cap (num, accum, out)) as [st1|] eqn:T; [|discriminate].
-    pose proof (hl_table_bounded _ _ _ _ _ _ _ _ Hst T) as B.
+    destruct (hl_table blk refs blen total cap isf (num, accum, out)) as [[st1 isf1]|] eqn:T; [|discriminate].
+    pose proof (hl_table_bounded _ _ _ _ _ _ _ _ _ Hst T) as B.
     destruct (nx =? 0); [inversion H; subst; assumption|]. destruct st1 as [[a b] c]. eapply IH; eassumption.
 Qed.
 
@@ -1262,335 +1263,137 @@ Proof.
   assert (st_ok cap (0, 0, [])) as S0.
   { destruct cap as [n|]; unfold st_ok; cbn [fst snd]; [|split; [reflexivity|lia]]. split; [reflexivity|exact Hc]. }
   assert (match tables with [] => None | _ :: _ =>
-            match hl_tables blk tables blen total cap (0, 0, []) with Some (num, _, o) => Some (num, o) | None => None end end
+            match hl_tables blk tables blen total cap true (0, 0, []) with Some (num, _, o) => Some (num, o) | None => None end end
           = Some (ret, out) -> st_ok cap (ret, 0, out)) as K.
   { intro H'. destruct tables as [|t ts]; [discriminate|].
-    destruct (hl_tables blk (t :: ts) blen total cap (0, 0, [])) as [[[num acc] o]|] eqn:T; [|discriminate].
-    inversion H'; subst. pose proof (hl_tables_bounded _ _ _ _ _ _ _ S0 T) as B.
+    destruct (hl_tables blk (t :: ts) blen total cap true (0, 0, [])) as [[[num acc] o]|] eqn:T; [|discriminate].
+    inversion H'; subst. pose proof (hl_tables_bounded _ _ _ _ _ _ _ _ S0 T) as B.
     destruct cap; unfold st_ok in *; cbn [fst snd] in *; exact B. }
   destruct cap as [n|].
   - destruct n as [|p|p]; [discriminate| |]; apply K in H; unfold st_ok in H; cbn [fst snd] in H; destruct H; repeat split; try assumption; lia.
   - apply K in H. unfold st_ok in H; cbn [fst snd] in H. destruct H. split; assumption.
 Qed.
 
-(** ** 8b. exactness, for elements laid out the way the library lays them out *)
-Fixpoint sumlen (l : list (Z * Z)) : Z := match l with [] => 0 | e :: t => snd e + sumlen t end.
-
-Lemma sumlen_app : forall a b, sumlen (a ++ b) = sumlen a + sumlen b.
-Proof. induction a; intro b; cbn [sumlen app]; [lia|]. rewrite IHa. lia. Qed.
-
-(** the last data block holds only what is left of the element *)
-Fixpoint trim (ents : list (Z * Z)) (accum blen total : Z) : list (Z * Z) :=
-  match ents with
-  | [] => []
-  | (o, len) :: t =>
-    match t with
-    | [] => [(o, if len =? blen then total - accum else len)]
-    | _ => (o, len) :: trim t (accum + len) blen total
-    end
-  end.
-
-Lemma trim_length : forall ents accum blen total, List.length (trim ents accum blen total) = List.length ents.
-Proof.
-  induction ents as [|[o len] t IH]; intros; [reflexivity|]. cbn [trim]. destruct t; [reflexivity|].
-  cbn [List.length]. rewrite IH. reflexivity.
-Qed.
-
+(** ** 8b. exactness: for every chain of block tables -- slots never written included -- the walk reports the
+       extents the format specification defines, cut to the caller's capacity *)
 Definition take (n num : Z) {A} (l : list A) : list A := firstn (Z.to_nat (n - num)) l.
 
-(** a table that is not the last one: every slot holds a block *)
-Lemma hl_table_nonlast : forall blk nx blen total n refs ents,
-  nx <> 0 -> Forall (fun r => r <> 0) refs -> Forall2 (fun r e => blk r = Some e) refs ents ->
-  forall num accum out, num <= n ->
-  hl_table blk refs nx blen total (Some n) (num, accum, out) =
-  Some (num + zlen (take n num ents), accum + sumlen (take n num ents), out ++ take n num ents).
+Lemma hl_table_stopped : forall blk refs blen total cap isf num accum out,
+  negb (accum <? total) || hl_full cap num = true ->
+  hl_table blk refs blen total cap isf (num, accum, out) = Some ((num, accum, out), isf).
+Proof. intros. destruct refs; cbn [hl_table]; [reflexivity|]. rewrite H. reflexivity. Qed.
+
+Lemma hl_table_app : forall blk a b blen total cap isf st,
+  hl_table blk (a ++ b) blen total cap isf st =
+  match hl_table blk a blen total cap isf st with
+  | None => None
+  | Some (st', isf') => hl_table blk b blen total cap isf' st'
+  end.
 Proof.
-  intros blk nx blen total n refs ents Hnx Hnz F. induction F as [|r e refs ents Hb F IH]; intros num accum out Hn.
-  - cbn [hl_table]. unfold take. rewrite firstn_nil. cbn [sumlen]. unfold zlen. cbn [List.length].
-    rewrite app_nil_r. f_equal. f_equal. f_equal; lia.
-  - cbn [hl_table]. pose proof (Forall_inv Hnz) as Hr. destruct (r =? 0) eqn:E0; [apply Z.eqb_eq in E0; contradiction|].
-    cbn [orb hl_full]. destruct (n <=? num) eqn:Ef.
-    + apply Z.leb_le in Ef. unfold take. replace (Z.to_nat (n - num)) with 0%nat by lia. cbn [firstn sumlen].
-      unfold zlen. cbn [List.length]. rewrite app_nil_r. f_equal. f_equal. f_equal; lia.
-    + apply Z.leb_gt in Ef. rewrite Hb. destruct e as [o len].
-      destruct (nx =? 0) eqn:En; [apply Z.eqb_eq in En; contradiction|]. cbn [andb].
-      rewrite (IH (Forall_inv_tail Hnz)) by lia. unfold take.
-      replace (Z.to_nat (n - num)) with (S (Z.to_nat (n - (num + 1)))) by lia. cbn [firstn].
-      rewrite <- app_assoc. cbn [app sumlen snd].
-      unfold zlen. cbn [List.length]. f_equal. f_equal. f_equal; lia.
+  induction a as [|r a IH]; intros b blen total cap isf [[num accum] out]; [reflexivity|].
+  cbn [app hl_table]. destruct (negb (accum <? total) || hl_full cap num) eqn:E.
+  - rewrite hl_table_stopped by assumption. reflexivity.
+  - destruct (r =? 0); [apply IH|]. destruct (blk r) as [[o len]|]; [apply IH|reflexivity].
 Qed.
 
-(** the last table: data blocks, then slots never used *)
-Lemma hl_table_last : forall blk blen total n refs ents z,
-  Forall (fun r => r <> 0) refs -> Forall (fun r => r = 0) z -> Forall2 (fun r e => blk r = Some e) refs ents ->
-  forall num accum out, num <= n ->
-  exists acc', hl_table blk (refs ++ z) 0 blen total (Some n) (num, accum, out) =
-  Some (num + zlen (take n num (trim ents accum blen total)), acc', out ++ take n num (trim ents accum blen total)).
+Lemma hl_tables_flat : forall blk blen total cap pre lastrefs, Forall (fun t => fst t <> 0) pre ->
+  forall isf st,
+  hl_tables blk (pre ++ [(0, lastrefs)]) blen total cap isf st =
+  match hl_table blk (List.concat (map snd pre) ++ lastrefs) blen total cap isf st with
+  | None => None | Some (st', _) => Some st' end.
 Proof.
-  intros blk blen total n refs ents z Hnz Hz F. induction F as [|r e refs ents Hb F IH]; intros num accum out Hn.
-  - exists accum. cbn [app trim]. unfold take. rewrite firstn_nil. unfold zlen. cbn [List.length]. rewrite app_nil_r, Z.add_0_r.
-    destruct z as [|z0 zs]; [reflexivity|]. cbn [hl_table]. rewrite (Forall_inv Hz). reflexivity.
-  - cbn [app hl_table]. pose proof (Forall_inv Hnz) as Hr. destruct (r =? 0) eqn:E0; [apply Z.eqb_eq in E0; contradiction|].
-    cbn [orb hl_full]. destruct (n <=? num) eqn:Ef.
-    + apply Z.leb_le in Ef. exists accum. unfold take. replace (Z.to_nat (n - num)) with 0%nat by lia. cbn [firstn].
-      unfold zlen. cbn [List.length]. rewrite app_nil_r, Z.add_0_r. reflexivity.
-    + apply Z.leb_gt in Ef. rewrite Hb. destruct e as [o len]. cbn [Z.eqb andb].
-      destruct ents as [|e2 ents'].
-      * (* the last data block *)
-        inversion F; subst. cbn [app trim].
-        assert (match z with [] => false | r' :: _ => negb (r' =? 0) end = false) as M.
-        { destruct z as [|z0 zs]; [reflexivity|]. rewrite (Forall_inv Hz). reflexivity. }
-        rewrite M. cbn [negb andb Z.eqb].
-        destruct (IH (Forall_inv_tail Hnz) (num + 1) accum (out ++ [(o, if len =? blen then total - accum else len)]) ltac:(lia))
-          as [acc' IH']. cbn [app trim] in IH'. exists acc'. rewrite IH'. unfold take.
-        replace (Z.to_nat (n - num)) with (S (Z.to_nat (n - (num + 1)))) by lia. cbn [firstn]. rewrite !firstn_nil.
-        unfold zlen. cbn [List.length]. rewrite app_nil_r. f_equal. f_equal. f_equal. lia.
-      * inversion F as [|r2 e2' refs' ents'' Hb2 F2]; subst. cbn [app].
-        pose proof (Forall_inv (Forall_inv_tail Hnz)) as Hr2. cbv beta in Hr2.
-        destruct (r2 =? 0) eqn:E2; [apply Z.eqb_eq in E2; contradiction|]. cbn [negb andb Z.eqb].
-        destruct (IH (Forall_inv_tail Hnz) (num + 1) (accum + len) (out ++ [(o, len)]) ltac:(lia)) as [acc' IH'].
-        cbn [app] in IH'. exists acc'. rewrite IH'. cbn [trim]. destruct e2 as [o2 len2]. unfold take.
+  intros blk blen total cap pre lastrefs Hpre. induction pre as [|[nx refs] pre IH]; intros isf [[num accum] out].
+  - cbn [app map List.concat hl_tables]. destruct (hl_full cap num) eqn:E.
+    + rewrite hl_table_stopped by (rewrite E; apply orb_true_r). reflexivity.
+    + destruct (hl_table blk lastrefs blen total cap isf (num, accum, out)) as [[st' i']|]; reflexivity.
+  - cbn [app map List.concat snd hl_tables]. pose proof (Forall_inv Hpre) as Hnx. cbn [fst] in Hnx.
+    rewrite <- app_assoc, hl_table_app. destruct (hl_full cap num) eqn:E.
+    + rewrite hl_table_stopped by (rewrite E; apply orb_true_r).
+      rewrite hl_table_stopped by (rewrite E; apply orb_true_r). reflexivity.
+    + destruct (hl_table blk refs blen total cap isf (num, accum, out)) as [[st' i']|]; [|reflexivity].
+      destruct (nx =? 0) eqn:En; [apply Z.eqb_eq in En; contradiction|]. apply IH. exact (Forall_inv_tail Hpre).
+Qed.
+
+(** the first slot stands for the length of the block that was made from existing data *)
+Definition first_ok (blk : Z -> option (Z * Z)) (isf : bool) (refs : list Z) (first blen : Z) : Prop :=
+  isf = true -> match refs with
+                | [] => True
+                | r0 :: _ => if r0 =? 0 then first = blen else exists o, blk r0 = Some (o, first)
+                end.
+
+Lemma slots_beyond : forall blk total refs st first blen isf, 0 <= blen -> 0 <= first -> total <= st ->
+  extents_of_slots blk total (block_slots refs st first blen isf) = Some [].
+Proof.
+  induction refs as [|r t IH]; intros st first blen isf Hb Hf Hst; [reflexivity|].
+  cbn [block_slots extents_of_slots]. destruct (st <? total) eqn:E; [apply Z.ltb_lt in E; lia|].
+  cbn [negb]. rewrite orb_true_r. apply IH; try assumption. destruct isf; lia.
+Qed.
+
+Lemma hl_table_exact : forall blk blen total first cap, 0 <= blen -> 0 <= first ->
+  forall refs isf num accum out E, first_ok blk isf refs first blen ->
+  match cap with Some n => num <= n | None => True end ->
+  extents_of_slots blk total (block_slots refs accum first blen isf) = Some E ->
+  exists acc' isf',
+    hl_table blk refs blen total cap isf (num, accum, out) =
+    Some (match cap with
+          | Some n => (num + zlen (take n num E), acc', out ++ take n num E)
+          | None => (num + zlen E, acc', out)
+          end, isf').
+Proof.
+  intros blk blen total first cap Hb Hf. induction refs as [|r t IH]; intros isf num accum out E Hfo Hn HS.
+  - cbn [block_slots extents_of_slots] in HS. inversion HS; subst. exists accum, isf. cbn [hl_table].
+    destruct cap as [n|]; unfold take; try rewrite firstn_nil; unfold zlen; cbn [List.length]; rewrite ?app_nil_r, Z.add_0_r; reflexivity.
+  - cbn [hl_table]. destruct (accum <? total) eqn:Et.
+    2:{ (* the element ends before this slot *)
+        apply Z.ltb_ge in Et. rewrite (slots_beyond blk total (r :: t) accum first blen isf Hb Hf Et) in HS.
+        inversion HS; subst. exists accum, isf. cbn [negb orb].
+        destruct cap as [n|]; unfold take; try rewrite firstn_nil; unfold zlen; cbn [List.length]; rewrite ?app_nil_r, Z.add_0_r; reflexivity. }
+    cbn [negb orb]. destruct (hl_full cap num) eqn:Efull.
+    { (* the caller's arrays are full *)
+      destruct cap as [n|]; [|discriminate]. unfold hl_full in Efull. apply Z.leb_le in Efull.
+      exists accum, isf. unfold take. replace (Z.to_nat (n - num)) with 0%nat by lia. cbn [firstn].
+      unfold zlen. cbn [List.length]. rewrite app_nil_r, Z.add_0_r. reflexivity. }
+    cbn [block_slots extents_of_slots] in HS. rewrite Et in HS. cbn [negb] in HS. rewrite orb_false_r in HS.
+    destruct (r =? 0) eqn:E0.
+    + (* a slot never written *)
+      assert ((if isf then first else blen) = blen) as Hsz.
+      { destruct isf; [|reflexivity]. specialize (Hfo eq_refl). cbn in Hfo. rewrite E0 in Hfo. exact Hfo. }
+      rewrite Hsz in HS. apply (IH false num (accum + blen) out E); [intro; discriminate | exact Hn | exact HS].
+    + destruct (blk r) as [[o len]|] eqn:Hk; [|discriminate].
+      destruct (extents_of_slots blk total (block_slots t (accum + (if isf then first else blen)) first blen false)) as [E'|] eqn:HS';
+        [|discriminate]. inversion HS; subst E. clear HS.
+      assert ((if isf then first else blen) = (if isf then len else blen)) as Hsz.
+      { destruct isf; [|reflexivity]. specialize (Hfo eq_refl). cbn in Hfo. rewrite E0 in Hfo. destruct Hfo as [o' Ho'].
+        rewrite Hk in Ho'. inversion Ho'. reflexivity. }
+      rewrite Hsz in *.
+      set (e := (o, Z.min (Z.min (if isf then len else blen) len) (total - accum))).
+      destruct cap as [n|].
+      * unfold hl_full in Efull. apply Z.leb_gt in Efull.
+        destruct (IH false (num + 1) (accum + (if isf then len else blen)) (out ++ [e]) E') as [acc' [isf' IH']];
+          [intro; discriminate | lia | exact HS' |].
+        exists acc', isf'. rewrite IH'. unfold take.
         replace (Z.to_nat (n - num)) with (S (Z.to_nat (n - (num + 1)))) by lia. cbn [firstn].
-        rewrite <- app_assoc. cbn [app]. unfold zlen. cbn [List.length]. f_equal. f_equal. f_equal. lia.
+        rewrite <- app_assoc. cbn [app]. unfold zlen. cbn [List.length]. f_equal. f_equal. f_equal. f_equal. lia.
+      * destruct (IH false (num + 1) (accum + (if isf then len else blen)) out E') as [acc' [isf' IH']];
+          [intro; discriminate | exact I | exact HS' |].
+        exists acc', isf'. rewrite IH'. unfold zlen. cbn [List.length]. f_equal. f_equal. f_equal. f_equal. lia.
 Qed.
 
-(** a linked-block element as the library lays it out: tables that are not the last are full of data blocks,
-    the last one holds data blocks followed by unused slots *)
-Record layout := mklayout {
-  lo_pre : list (Z * list (Z * (Z * Z)));      (* non-last tables: next ref, slots as (block ref, (offset, length)) *)
-  lo_last : list (Z * (Z * Z));                (* data blocks of the last table *)
-  lo_zeros : list Z                            (* its unused slots *)
-}.
-Definition lo_tables (l : layout) : list (Z * list Z) :=
-  map (fun t => (fst t, map fst (snd t))) (lo_pre l) ++ [(0, map fst (lo_last l) ++ lo_zeros l)].
-Definition lo_pre_ents (l : layout) : list (Z * Z) := List.concat (map (fun t => map snd (snd t)) (lo_pre l)).
-Definition lo_ents (l : layout) : list (Z * Z) := lo_pre_ents l ++ map snd (lo_last l).
-Definition lo_refs (l : layout) : list Z := List.concat (map snd (lo_tables l)).
-
-Definition slots_ok (blk : Z -> option (Z * Z)) (s : list (Z * (Z * Z))) : Prop :=
-  Forall (fun p => fst p <> 0 /\ blk (fst p) = Some (snd p)) s.
-
-Definition layout_ok (blk : Z -> option (Z * Z)) (l : layout) : Prop :=
-  Forall (fun t => fst t <> 0 /\ slots_ok blk (snd t)) (lo_pre l) /\ slots_ok blk (lo_last l) /\
-  Forall (fun r => r = 0) (lo_zeros l).
-
-Lemma slots_F2 : forall blk s, slots_ok blk s ->
-  Forall (fun r => r <> 0) (map fst s) /\ Forall2 (fun r e => blk r = Some e) (map fst s) (map snd s).
-Proof.
-  induction s as [|[r e] s IH]; intro H; cbn [map]; [split; constructor|].
-  destruct (IH (Forall_inv_tail H)) as [A B]. pose proof (Forall_inv H) as [C D]. cbn [fst snd] in *.
-  split; constructor; assumption.
-Qed.
-
-Lemma hl_tables_layout : forall blk blen total n pre last z,
-  Forall (fun t => fst t <> 0 /\ slots_ok blk (snd t)) pre -> slots_ok blk last -> Forall (fun r => r = 0) z ->
-  forall num accum out, num <= n ->
-  let ents := List.concat (map (fun t => map snd (snd t)) pre) in
-  exists acc',
-    hl_tables blk (map (fun t => (fst t, map fst (snd t))) pre ++ [(0, map fst last ++ z)]) blen total (Some n)
-              (num, accum, out)
-    = Some (num + zlen (take n num (ents ++ trim (map snd last) (accum + sumlen ents) blen total)), acc',
-            out ++ take n num (ents ++ trim (map snd last) (accum + sumlen ents) blen total)).
-Proof.
-  intros blk blen total n pre last z Hpre Hlast Hz. induction pre as [|[nx s] pre IH]; intros num accum out Hn; cbn zeta.
-  - cbn [map app List.concat sumlen hl_tables hl_full]. rewrite Z.add_0_r.
-    destruct (n <=? num) eqn:Ef.
-    + apply Z.leb_le in Ef. exists accum. unfold take. replace (Z.to_nat (n - num)) with 0%nat by lia. cbn [firstn].
-      unfold zlen. cbn [List.length]. rewrite app_nil_r, Z.add_0_r. reflexivity.
-    + destruct (slots_F2 blk last Hlast) as [A B].
-      destruct (hl_table_last blk blen total n _ _ z A Hz B num accum out Hn) as [acc' E]. rewrite E.
-      exists acc'. reflexivity.
-  - cbn [map app List.concat hl_tables hl_full fst snd].
-    pose proof (Forall_inv Hpre) as [Hnx Hs]. cbn [fst snd] in Hnx, Hs.
-    set (e1 := map snd s) in *. set (rest := List.concat (map (fun t => map snd (snd t)) pre)) in *.
-    destruct (n <=? num) eqn:Ef.
-    + apply Z.leb_le in Ef. exists accum. unfold take. replace (Z.to_nat (n - num)) with 0%nat by lia. cbn [firstn].
-      unfold zlen. cbn [List.length]. rewrite app_nil_r, Z.add_0_r. reflexivity.
-    + apply Z.leb_gt in Ef. destruct (slots_F2 blk s Hs) as [A B]. fold e1 in B.
-      rewrite (hl_table_nonlast blk nx blen total n _ _ Hnx A B) by lia.
-      destruct (nx =? 0) eqn:En; [apply Z.eqb_eq in En; contradiction|].
-      assert (num + zlen (take n num e1) <= n) as Hn'.
-      { unfold take, zlen. rewrite firstn_length. lia. }
-      destruct (IH (Forall_inv_tail Hpre) (num + zlen (take n num e1)) (accum + sumlen (take n num e1)) (out ++ take n num e1) Hn')
-        as [acc' E]. cbn zeta in E. fold rest in E. rewrite E. exists acc'.
-      (* both cases: the first table fits entirely, or the arrays fill up inside it *)
-      destruct (Z_le_gt_dec (zlen e1) (n - num)) as [Fit|Cut].
-      * assert (take n num e1 = e1) as T1 by (unfold take; apply firstn_all2; unfold zlen in Fit; lia).
-        rewrite T1. rewrite sumlen_app.
-        assert (take n num ((e1 ++ rest) ++ trim (map snd last) (accum + (sumlen e1 + sumlen rest)) blen total) =
-                e1 ++ take n (num + zlen e1) (rest ++ trim (map snd last) (accum + sumlen e1 + sumlen rest) blen total)) as T2.
-        { unfold take. rewrite <- app_assoc, firstn_app. rewrite firstn_all2 by (unfold zlen in Fit; lia).
-          f_equal. replace (accum + (sumlen e1 + sumlen rest)) with (accum + sumlen e1 + sumlen rest) by lia.
-          f_equal. unfold zlen. lia. }
-        rewrite T2. rewrite zlen_app, <- app_assoc. f_equal. f_equal. f_equal. lia.
-      * assert (take n (num + zlen (take n num e1))
-                     (rest ++ trim (map snd last) (accum + sumlen (take n num e1) + sumlen rest) blen total) = []) as T1.
-        { unfold take. unfold zlen at 1. rewrite firstn_length. replace (Z.to_nat (n - (num + Z.of_nat (Nat.min (Z.to_nat (n - num)) (List.length e1))))) with 0%nat by (unfold zlen in Cut; lia). reflexivity. }
-        rewrite T1.
-        assert (take n num ((e1 ++ rest) ++ trim (map snd last) (accum + sumlen (e1 ++ rest)) blen total) = take n num e1) as T2.
-        { unfold take. rewrite <- app_assoc, firstn_app.
-          replace (Z.to_nat (n - num) - List.length e1)%nat with 0%nat by (unfold zlen in Cut; lia). cbn [firstn]. apply app_nil_r. }
-        rewrite T2. unfold zlen at 2. cbn [List.length]. rewrite app_nil_r, Z.add_0_r. reflexivity.
-Qed.
-
-(** count-only queries (NULL arrays) *)
-Lemma hl_table_count : forall blk nx blen total refs z, Forall (fun r => r <> 0) refs -> Forall (fun r => r = 0) z ->
-  forall num accum out,
-  hl_table blk (refs ++ z) nx blen total None (num, accum, out) = Some (num + zlen refs, accum, out).
-Proof.
-  intros blk nx blen total refs z Hnz Hz. induction refs as [|r t IH]; intros num accum out.
-  - cbn [app]. unfold zlen. cbn [List.length]. rewrite Z.add_0_r. destruct z as [|z0 zs]; [reflexivity|].
-    cbn [hl_table]. rewrite (Forall_inv Hz). reflexivity.
-  - cbn [app hl_table]. pose proof (Forall_inv Hnz) as Hr. destruct (r =? 0) eqn:E0; [apply Z.eqb_eq in E0; contradiction|].
-    cbn [orb hl_full]. rewrite (IH (Forall_inv_tail Hnz)). unfold zlen. cbn [List.length]. f_equal. f_equal. f_equal. lia.
-Qed.
-
-Lemma hl_tables_count : forall blk blen total pre last z,
-  Forall (fun t => fst t <> 0 /\ slots_ok blk (snd t)) pre -> slots_ok blk last -> Forall (fun r => r = 0) z ->
-  forall num accum out,
-  hl_tables blk (map (fun t => (fst t, map fst (snd t))) pre ++ [(0, map fst last ++ z)]) blen total None (num, accum, out)
-  = Some (num + zlen (List.concat (map (fun t => map snd (snd t)) pre) ++ map snd last), accum, out).
-Proof.
-  intros blk blen total pre last z Hpre Hlast Hz. induction pre as [|[nx s] pre IH]; intros num accum out.
-  - cbn [map app List.concat hl_tables hl_full]. destruct (slots_F2 blk last Hlast) as [A _].
-    rewrite (hl_table_count blk 0 blen total _ z A Hz). cbn [Z.eqb]. unfold zlen. rewrite !map_length. reflexivity.
-  - cbn [map app List.concat hl_tables hl_full fst snd]. pose proof (Forall_inv Hpre) as [Hnx Hs]. cbn [fst snd] in Hnx, Hs.
-    destruct (slots_F2 blk s Hs) as [A _].
-    rewrite <- (app_nil_r (map fst s)). rewrite (hl_table_count blk nx blen total _ [] A (Forall_nil _)).
-    destruct (nx =? 0) eqn:En; [apply Z.eqb_eq in En; contradiction|].
-    rewrite (IH (Forall_inv_tail Hpre)). rewrite <- app_assoc, !zlen_app. unfold zlen. rewrite !map_length. f_equal. f_equal. f_equal. lia.
-Qed.
-
-(** the specification's side: nominal block lengths and the position of the element's end *)
-Definition lens_ok (isf : bool) (E : list (Z * Z)) (first blen : Z) : Prop :=
-  match E with
-  | [] => True
-  | e :: t => snd e = (if isf then first else blen) /\ Forall (fun e => snd e = blen) t
-  end.
-
-(** the element ends inside its last data block (a first block of another size, made from existing data, is full) *)
-Fixpoint total_ok (E : list (Z * Z)) (st blen total : Z) : Prop :=
-  match E with
-  | [] => True
-  | e :: t => match t with
-              | [] => st < total <= st + snd e /\ (snd e <> blen -> total = st + snd e)
-              | _ => total_ok t (st + snd e) blen total
-              end
-  end.
-
-Lemma total_ok_start : forall E st blen total first isf, 0 < blen -> 0 < first ->
-  E <> [] -> lens_ok isf E first blen -> total_ok E st blen total -> st < total.
-Proof.
-  induction E as [|e t IH]; intros st blen total first isf Hb Hf Hne Hl Ht; [congruence|].
-  cbn [total_ok] in Ht. destruct t as [|e2 t'].
-  - lia.
-  - destruct Hl as [L1 L2]. assert (0 < snd e) by (rewrite L1; destruct isf; assumption).
-    assert (st + snd e < total); [|lia].
-    apply (IH (st + snd e) blen total first false Hb Hf); [discriminate | | exact Ht].
-    unfold lens_ok. split; [exact (Forall_inv L2) | exact (Forall_inv_tail L2)].
-Qed.
-
-Lemma slots_zeros : forall blk total z st first blen isf, Forall (fun r => r = 0) z ->
-  extents_of_slots blk total (block_slots z st first blen isf) = Some [].
-Proof.
-  induction z as [|r t IH]; intros st first blen isf Hz; [reflexivity|].
-  cbn [block_slots extents_of_slots]. rewrite (Forall_inv Hz). cbn [Z.eqb orb]. apply IH. exact (Forall_inv_tail Hz).
-Qed.
-
-Lemma spec_extents_layout : forall blk total first blen S z, 0 < blen -> 0 < first ->
-  slots_ok blk S -> Forall (fun r => r = 0) z ->
-  forall st isf, lens_ok isf (map snd S) first blen -> total_ok (map snd S) st blen total ->
-  extents_of_slots blk total (block_slots (map fst S ++ z) st first blen isf) = Some (trim (map snd S) st blen total).
-Proof.
-  intros blk total first blen S z Hb Hf Hs Hz. induction S as [|[r [o len]] S' IH]; intros st isf Hl Ht.
-  - cbn [map app trim]. apply slots_zeros. exact Hz.
-  - pose proof (Forall_inv Hs) as [Hr Hk]. cbn [fst snd] in Hr, Hk.
-    assert (st < total) as Hst by (apply (total_ok_start (map snd ((r, (o, len)) :: S')) st blen total first isf Hb Hf); [discriminate | exact Hl | exact Ht]).
-    cbn [map app fst snd block_slots extents_of_slots].
-    destruct (r =? 0) eqn:E0; [apply Z.eqb_eq in E0; contradiction|].
-    destruct (st <? total) eqn:E1; [|apply Z.ltb_ge in E1; lia]. cbn [orb negb]. rewrite Hk.
-    destruct Hl as [L1 L2]. cbn [snd] in L1.
-    destruct S' as [|[r2 [o2 len2]] S''].
-    + cbn [map app]. rewrite slots_zeros by assumption. cbn [trim]. cbn [map total_ok snd] in Ht.
-      destruct Ht as [T1 T2]. f_equal. f_equal. f_equal. rewrite <- L1.
-      destruct (len =? blen) eqn:E; [lia|]. apply Z.eqb_neq in E. specialize (T2 E). lia.
-    + cbn [map total_ok snd] in Ht.
-      rewrite (IH (Forall_inv_tail Hs) (st + (if isf then first else blen)) false).
-      * cbn [map snd trim]. rewrite <- L1. f_equal. f_equal. f_equal.
-        assert (st + len < total); [|lia].
-        apply (total_ok_start (map snd ((r2, (o2, len2)) :: S'')) (st + len) blen total first false Hb Hf); [discriminate| |exact Ht].
-        cbn [map snd] in L2 |- *. unfold lens_ok. split; [exact (Forall_inv L2) | exact (Forall_inv_tail L2)].
-      * cbn [map snd] in L2 |- *. unfold lens_ok. split; [exact (Forall_inv L2) | exact (Forall_inv_tail L2)].
-      * rewrite <- L1. exact Ht.
-Qed.
-
-Definition lo_slots (l : layout) : list (Z * (Z * Z)) := List.concat (map snd (lo_pre l)) ++ lo_last l.
-
-Lemma lo_refs_eq : forall l, lo_refs l = map fst (lo_slots l) ++ lo_zeros l.
-Proof.
-  intro l. unfold lo_refs, lo_tables, lo_slots. rewrite map_app, concat_app. cbn [map List.concat snd].
-  rewrite app_nil_r, map_app, <- app_assoc. f_equal.
-  induction (lo_pre l) as [|[nx s] t IH]; [reflexivity|]. cbn [map List.concat snd fst]. rewrite map_app, IH. reflexivity.
-Qed.
-
-Lemma lo_ents_eq : forall l, lo_ents l = map snd (lo_slots l).
-Proof.
-  intro l. unfold lo_ents, lo_pre_ents, lo_slots. rewrite map_app. f_equal.
-  induction (lo_pre l) as [|[nx s] t IH]; [reflexivity|]. cbn [map List.concat snd]. rewrite map_app, IH. reflexivity.
-Qed.
-
-Lemma lo_slots_ok : forall blk l, layout_ok blk l -> slots_ok blk (lo_slots l).
-Proof.
-  intros blk l (A & B & _). unfold lo_slots, slots_ok. apply Forall_app. split; [|exact B].
-  induction (lo_pre l) as [|[nx s] t IH]; [constructor|]. cbn [map List.concat snd]. apply Forall_app.
-  pose proof (Forall_inv A) as [_ Hs]. split; [exact Hs | apply IH; exact (Forall_inv_tail A)].
-Qed.
-
-Lemma trim_app : forall a b acc blen total, b <> [] ->
-  trim (a ++ b) acc blen total = a ++ trim b (acc + sumlen a) blen total.
-Proof.
-  induction a as [|[o len] a IH]; intros b acc blen total Hb.
-  - cbn [app sumlen]. rewrite Z.add_0_r. reflexivity.
-  - cbn [app trim sumlen snd]. destruct (a ++ b) eqn:E.
-    + apply app_eq_nil in E. destruct E; contradiction.
-    + rewrite <- E, IH by assumption. replace (acc + len + sumlen a) with (acc + (len + sumlen a)) by lia. reflexivity.
-Qed.
-
-(** the last table of an element holds at least one data block unless the element has no block at all *)
-Definition last_table_used (l : layout) : Prop := lo_last l <> [] \/ lo_pre l = [].
-
-Theorem hl_getdatainfo_exact : forall blk l blen total first cap,
-  0 < blen -> 0 < first -> layout_ok blk l -> last_table_used l ->
-  lens_ok true (lo_ents l) first blen -> total_ok (lo_ents l) 0 blen total ->
+Theorem hl_getdatainfo_exact : forall blk pre lastrefs blen total first cap exts,
+  0 <= blen -> 0 <= first -> Forall (fun t => fst t <> 0) pre ->
+  first_ok blk true (List.concat (map snd pre) ++ lastrefs) first blen ->
   cap_ok cap -> cap <> Some 0 ->
-  exists exts,
-    extents_of_slots blk total (block_slots (lo_refs l) 0 first blen true) = Some exts /\
-    hl_getdatainfo blk (lo_tables l) blen total cap = Some (datainfo_answer exts cap).
+  extents_of_slots blk total (block_slots (List.concat (map snd pre) ++ lastrefs) 0 first blen true) = Some exts ->
+  hl_getdatainfo blk (pre ++ [(0, lastrefs)]) blen total cap = Some (datainfo_answer exts cap).
 Proof.
-  intros blk l blen total first cap Hb Hf Hlo Hused Hl Ht Hc Hc0.
-  exists (trim (lo_ents l) 0 blen total). split.
-  - rewrite lo_refs_eq, lo_ents_eq. apply spec_extents_layout; try assumption.
-    + apply lo_slots_ok; assumption.
-    + destruct Hlo as (_ & _ & Z0). exact Z0.
-    + rewrite <- lo_ents_eq. exact Hl.
-    + rewrite <- lo_ents_eq. exact Ht.
-  - destruct Hlo as (A & B & C). unfold hl_getdatainfo, lo_tables.
-    assert (forall X (a : list X) b, a ++ [b] <> []) as NE by (intros X a b; destruct a; discriminate).
-    assert (trim (lo_ents l) 0 blen total =
-            lo_pre_ents l ++ trim (map snd (lo_last l)) (sumlen (lo_pre_ents l)) blen total) as TR.
-    { unfold lo_ents. destruct Hused as [U|U].
-      - rewrite trim_app by (destruct (lo_last l); [contradiction|discriminate]). reflexivity.
-      - unfold lo_pre_ents. rewrite U. reflexivity. }
-    destruct cap as [n|].
-    + destruct n as [|p|p]; [congruence| |unfold cap_ok in Hc; lia].
-      destruct (map (fun t => (fst t, map fst (snd t))) (lo_pre l) ++ [(0, map fst (lo_last l) ++ lo_zeros l)]) eqn:T;
-        [exfalso; eapply NE; exact T|]. rewrite <- T.
-      destruct (hl_tables_layout blk blen total (Z.pos p) (lo_pre l) (lo_last l) (lo_zeros l) A B C 0 0 [] Hc) as [acc' E].
-      cbn zeta in E. cbn [app] in E. rewrite !Z.add_0_l in E. fold (lo_pre_ents l) in E. rewrite <- TR in E.
-      rewrite E. unfold datainfo_answer, take. rewrite Z.sub_0_r. reflexivity.
-    + destruct (map (fun t => (fst t, map fst (snd t))) (lo_pre l) ++ [(0, map fst (lo_last l) ++ lo_zeros l)]) eqn:T;
-        [exfalso; eapply NE; exact T|]. rewrite <- T.
-      rewrite (hl_tables_count blk blen total (lo_pre l) (lo_last l) (lo_zeros l) A B C 0 0 []).
-      unfold datainfo_answer. f_equal. f_equal. rewrite Z.add_0_l. unfold zlen. rewrite trim_length.
-      unfold lo_ents, lo_pre_ents. reflexivity.
+  intros blk pre lastrefs blen total first cap exts Hb Hf Hpre Hfo Hc Hc0 HS. unfold hl_getdatainfo.
+  assert (forall X (a : list X) b, a ++ [b] <> []) as NE by (intros X a b; destruct a; discriminate).
+  assert (match cap with Some n => 0 <= n | None => True end) as Hn by exact Hc.
+  destruct (hl_table_exact blk blen total first cap Hb Hf _ true 0 0 [] exts Hfo Hn HS) as [acc' [isf' E]].
+  destruct (pre ++ [(0, lastrefs)]) as [|t0 ts] eqn:T; [exfalso; eapply NE; exact T|]. rewrite <- T.
+  rewrite (hl_tables_flat blk blen total cap pre lastrefs Hpre), E.
+  destruct cap as [n|].
+  - destruct n as [|p|p]; [congruence| |unfold cap_ok in Hc; lia].
+    unfold datainfo_answer, take. rewrite Z.sub_0_r, Z.add_0_l. reflexivity.
+  - unfold datainfo_answer. rewrite Z.add_0_l. reflexivity.
 Qed.
